@@ -2,6 +2,15 @@
 
 package sync
 
+import (
+	"github.com/LiskHQ/lisk-engine/pkg/blockchain"
+	cbytes "github.com/LiskHQ/lisk-engine/pkg/collection/bytes"
+	"github.com/LiskHQ/lisk-engine/pkg/crypto"
+	"github.com/LiskHQ/lisk-engine/pkg/db"
+	"github.com/LiskHQ/lisk-engine/pkg/log"
+	"github.com/LiskHQ/lisk-engine/pkg/p2p"
+)
+
 // C19.a: getBestNodeInfo returns a peer with maximal maxHeightPrevoted, then maximal height among
 // those, then a most frequent block ID among those — for every list, every map iteration order and
 // every random pick.
@@ -85,5 +94,171 @@ func zzH_C19_height_helpers(t *zzT) {
 		t.Assert(h == start-uint32(i), "consecutive descending heights from start")
 	}
 	t.Assert(len(ls) <= num, "getLastHeights returns at most num heights")
+	t.Reach("end")
+}
+
+// ---- C19.b: sync RPC handlers on a node's own chain ----
+
+type zzsLog struct{}
+
+func (zzsLog) Debug(msg string, others ...interface{})    {}
+func (zzsLog) Info(msg string, others ...interface{})     {}
+func (zzsLog) Error(msg string, others ...interface{})    {}
+func (zzsLog) Debugf(msg string, others ...interface{})   {}
+func (zzsLog) Infof(msg string, others ...interface{})    {}
+func (zzsLog) Errorf(msg string, others ...interface{})   {}
+func (zzsLog) Warning(msg string, others ...interface{})  {}
+func (zzsLog) Warningf(msg string, others ...interface{}) {}
+func (l zzsLog) With(kv ...interface{}) log.Logger        { return l }
+
+var zzsBanned int
+
+// zzsStubBanPeer replaces (*p2p.Connection).BanPeer under the engine (monitor). Natively the real
+// method would need a started libp2p host; the harness therefore passes a nil connection natively
+// only on paths that must not ban (see zzsNode).
+func zzsStubBanPeer(c *p2p.Connection, id p2p.PeerID) {
+	zzsBanned++
+}
+
+type zzsWriter struct {
+	data  [][]byte
+	errs  int
+	calls int
+}
+
+func (w *zzsWriter) Write(b []byte) { w.calls++; w.data = append(w.data, b) }
+func (w *zzsWriter) Error(e error)  { w.calls++; w.errs++ }
+
+func zzsBlock(height uint32, prev []byte) *blockchain.Block {
+	h := &blockchain.BlockHeader{Version: 2, Timestamp: 100 + height*10, Height: height, PreviousBlockID: prev, GeneratorAddress: cbytes.Repeat([]byte{1}, 20),
+		TransactionRoot: crypto.Hash([]byte{}), AssetRoot: crypto.Hash([]byte{}), EventRoot: crypto.Hash([]byte{}), StateRoot: cbytes.Repeat([]byte{2}, 32),
+		ValidatorsHash: cbytes.Repeat([]byte{3}, 32), AggregateCommit: &blockchain.AggregateCommit{AggregationBits: []byte{}, CertificateSignature: []byte{}}, Signature: cbytes.Repeat([]byte{4}, 64)}
+	h.Init()
+	return &blockchain.Block{Header: h, Transactions: []*blockchain.Transaction{}, Assets: []*blockchain.BlockAsset{}}
+}
+
+// zzsNode: a chain of n blocks (heights 0..n-1) stored through the real Chain.AddBlock.
+func zzsNode(t *zzT, n int) (*Syncer, []*blockchain.Block) {
+	database, err := db.NewInMemoryDB()
+	if err != nil {
+		t.Fail("db")
+	}
+	var blocks []*blockchain.Block
+	prev := cbytes.Repeat([]byte{0}, 32)
+	for i := 0; i < n; i++ {
+		b := zzsBlock(uint32(i), prev)
+		blocks = append(blocks, b)
+		prev = b.Header.ID
+	}
+	chain := blockchain.NewChain(&blockchain.ChainConfig{ChainID: []byte{0, 0, 0, 1}, MaxTransactionsLength: 1000, MaxBlockCache: 2, KeepEventsForHeights: -1})
+	chain.Init(blocks[0], database)
+	for _, b := range blocks {
+		if err := chain.AddBlock(database.NewBatch(), b, nil, 0, false); err != nil {
+			t.Fail("setup: AddBlock")
+		}
+	}
+	zzsBanned = 0
+	return &Syncer{chain: chain, logger: zzsLog{}, conn: &p2p.Connection{}}, blocks
+}
+
+// C19.b: GetBlocksFromID answers a well-formed request for a block of the node's own chain with the
+// consecutive blocks above it (at most 103, up to the tip, ascending), answers an unknown ID with an
+// error, and bans the sender of a malformed request without answering. C09.b: no request panics.
+//
+//zz:opt loop=200 lockdiscipline=off
+//zz:stub (*~/pkg/p2p.Connection).BanPeer zzsStubBanPeer
+//zz:quick N=4 B=3
+//zz:thorough N=6 B=5
+func zzH_C19_blocks_from_id_handler(t *zzT) {
+	n := t.Param("N", 4)
+	s, blocks := zzsNode(t, n)
+	w := &zzsWriter{}
+	h := s.HandleRPCEndpointGetBlocksFromID()
+	kind := t.Choice("request", 3)
+	switch kind {
+	case 0: // well-formed, known block k
+		k := t.Range("k", 0, n-1)
+		h(w, &p2p.Request{Data: (&GetBlocksFromIDRequest{ID: blocks[k].Header.ID}).Encode()})
+		t.Assert(zzsBanned == 0 && w.calls == 1 && w.errs == 0, "a well-formed request for an own block is answered once and nobody is banned")
+		if len(w.data) == 1 {
+			resp := &GetBlocksFromIDResponse{}
+			t.Assert(resp.Decode(w.data[0]) == nil, "response decodes")
+			t.Assert(len(resp.Blocks) == n-1-k && len(resp.Blocks) <= 103, "all blocks above the requested one up to the tip (at most 103)")
+			for i, b := range resp.Blocks {
+				b.Init()
+				t.Assert(b.Header.Height == uint32(k+1+i) && cbytes.Equal(b.Header.ID, blocks[k+1+i].Header.ID), "consecutive ascending blocks of the node's own chain")
+			}
+		}
+		t.Reach("served")
+	case 1: // well-formed, unknown ID
+		h(w, &p2p.Request{Data: (&GetBlocksFromIDRequest{ID: cbytes.Repeat([]byte{9}, 32)}).Encode()})
+		t.Assert(zzsBanned == 0 && w.errs == 1 && len(w.data) == 0, "unknown block ID: error response, no ban")
+		t.Reach("unknown")
+	default: // arbitrary bytes (nil when length 0 is chosen as nil)
+		nb := t.Range("len", 0, t.Param("B", 3))
+		var raw []byte
+		if nb > 0 || t.Bool("emptyNotNil") {
+			raw = t.Bytes("raw", nb)
+		}
+		if !t.Symbolic() {
+			// BanPeer needs a live host natively; with a nil connection an attempted ban panics inside
+			// BanPeer, which is caught and counted here
+			s.conn = nil
+			func() {
+				defer func() {
+					if r := recover(); r != nil {
+						zzsBanned++
+					}
+				}()
+				h(w, &p2p.Request{Data: raw})
+			}()
+		} else {
+			h(w, &p2p.Request{Data: raw})
+		}
+		req := &GetBlocksFromIDRequest{}
+		wellFormed := raw != nil && req.Decode(raw) == nil && len(req.ID) == 32
+		if !wellFormed {
+			t.Assert(zzsBanned == 1 && w.calls == 0, "malformed request: the sender is banned and nothing is answered")
+		}
+		t.Reach("arbitrary")
+	}
+}
+
+// C19.b: GetHighestCommonBlock returns the known ID of maximal height among the offered IDs (nil when
+// none is known) and bans on malformed requests.
+//
+//zz:opt loop=200 lockdiscipline=off sched=1
+//zz:stub (*~/pkg/p2p.Connection).BanPeer zzsStubBanPeer
+//zz:quick N=3
+//zz:thorough N=4
+func zzH_C19_highest_common_block_handler(t *zzT) {
+	n := t.Param("N", 3)
+	s, blocks := zzsNode(t, n)
+	w := &zzsWriter{}
+	h := s.HandleRPCEndpointGetHighestCommonBlock()
+	cnt := t.Range("ids", 1, 2)
+	var ids [][]byte
+	best := -1
+	for i := 0; i < cnt; i++ {
+		k := t.Range(t.Name("id", i), 0, n) // n = unknown ID
+		if k == n {
+			ids = append(ids, cbytes.Repeat([]byte{byte(7 + i)}, 32))
+		} else {
+			ids = append(ids, blocks[k].Header.ID)
+			if k > best {
+				best = k
+			}
+		}
+	}
+	h(w, &p2p.Request{Data: (&GetHighestCommonBlockRequest{IDs: ids}).Encode()})
+	t.Assert(zzsBanned == 0 && w.calls == 1 && w.errs == 0, "well-formed request: answered once, nobody banned")
+	if len(w.data) == 1 {
+		if best < 0 {
+			t.Assert(w.data[0] == nil, "no offered ID is known: empty answer")
+		} else {
+			resp := &GetHighestCommonBlockResponse{}
+			t.Assert(w.data[0] != nil && resp.Decode(w.data[0]) == nil && cbytes.Equal(resp.ID, blocks[best].Header.ID), "answer is the known ID of maximal height")
+		}
+	}
 	t.Reach("end")
 }
